@@ -173,7 +173,8 @@ class SimpleRequest:
     @property
     def path(self):
         """Path part of url."""
-        return self.__environ.get('PATH_INFO').encode('iso-8859-1').decode()
+        return self.__environ.get('PATH_INFO').encode('iso-8859-1').decode(
+            'utf-8', 'replace')
 
     @property
     def query(self):
